@@ -20,15 +20,15 @@ func (c *ChoquetIntegralPreferenceFunc) Spec_Identifier() string {
 }
 
 func (c *ChoquetIntegralPreferenceFunc) Spec_MethodParameters() interface{} {
-	return model.WeightsParamOnly()
+	return model.Spec_WeightsParamOnly()
 }
 
 func (c *ChoquetIntegralPreferenceFunc) Spec_Evaluate(dmp *model.DecisionMakingParams) *model.AlternativesRanking {
 	params := dmp.MethodParameters.(choquetParams)
 	prefFunc := func(alternative *model.AlternativeWithCriteria) *model.AlternativeResult {
-		return choquetIntegral(alternative, params.weights)
+		return Spec_choquetIntegral(alternative, params.weights)
 	}
-	return model.Rank(dmp, prefFunc)
+	return model.Spec_Rank(dmp, prefFunc)
 }
 
 func Spec_ChoquetIntegral(
@@ -36,17 +36,17 @@ func Spec_ChoquetIntegral(
 	criteria model.Criteria,
 	weights model.Weights,
 ) *model.AlternativeResult {
-	resultWeights := parse(&criteria, &weights)
-	return choquetIntegral(&alternative, resultWeights)
+	resultWeights := Spec_parse(&criteria, &weights)
+	return Spec_choquetIntegral(&alternative, resultWeights)
 }
 
 func Spec_choquetIntegral(
 	alternative *model.AlternativeWithCriteria,
 	weights *model.Weights,
 ) *model.AlternativeResult {
-	sortedCriteria := prepareCriteriaInAscendingOrder(alternative)
-	result, _ := computeTotalWeight(sortedCriteria, weights)
-	return model.ValueAlternativeResult(alternative, result)
+	sortedCriteria := Spec_prepareCriteriaInAscendingOrder(alternative)
+	result, _ := Spec_computeTotalWeight(sortedCriteria, weights)
+	return model.Spec_ValueAlternativeResult(alternative, result)
 }
 
 func Spec_computeTotalWeight(sortedCriteria *criteriaWeights, weights *model.Weights) (model.Weight, []weightComponent) {
@@ -63,11 +63,11 @@ func Spec_computeTotalWeight(sortedCriteria *criteriaWeights, weights *model.Wei
 		var j int
 		for j = i + 1; j < totalElements; j++ {
 			var nextValue = (*sortedCriteria)[j]
-			if !utils.FloatsAreEqual(current.weight, nextValue.weight, 0.00001) {
+			if !utils.Spec_FloatsAreEqual(current.weight, nextValue.weight, 0.00001) {
 				break
 			}
 		}
-		criteriaUnionWeight := getWeightForCriteriaUnion(&commonWeightCriteria, weights)
+		criteriaUnionWeight := Spec_getWeightForCriteriaUnion(&commonWeightCriteria, weights)
 		valueAdded := criteriaUnionWeight * (current.weight - previousWeight)
 		result += valueAdded
 		components = append(components, weightComponent{commonWeightCriteria, valueAdded})
